@@ -5,7 +5,7 @@ A case is (progs, sched): progs[0] is the loop thread's program, the others are 
   [0, sid, prio, src?]  loop.enqueue_signal(Sig)         src? = [] | [o]
   [1]                   one turn of `while self._run_loop: signal = self._active_queue.get(); self._process_signal(signal)`
   [2, o]                loop.register_signal_source(o)
-  [3, sid, prio, src?]  loop.execute_new_loop(Sig)       (the nested _mainloop returns at once: _run_loop is False on entry)
+  [3, sid, prio, src?]  loop.execute_new_loop(Sig)       (up to the entry of the nested _mainloop, which the subclass stubs out)
   [4]                   loop.close_loop()
   [5]                   loop.force_quit()
 sched is a list of thread ids.  Every thread may perform its next *shared access* only when the
@@ -339,6 +339,11 @@ class World:
                 self.__dict__["_x_evq"] = SList(l).bind(s, w.qidof)
             _event_queues = property(_get_evq, _set_evq)
 
+            def _mainloop(self):
+                # only reached from execute_new_loop (the harness never calls run()): the model's "open"
+                # action ends at the entry of the nested _mainloop; its body is the dispatch actions that follow
+                return
+
             def enqueue_signal(self, signal):
                 s.local.enq = getattr(s.local, "enq", 0) + 1
                 try:
@@ -429,7 +434,6 @@ class World:
                         loop.execute_new_loop(self.Sig(a[1], a[2], a[3][0] if a[3] else None))
                         self.dropped.append(a[1])
                     else:
-                        loop._run_loop = False      # the nested _mainloop returns immediately and re-arms it
                         loop.execute_new_loop(self.Sig(a[1], a[2], a[3][0] if a[3] else None))
                         if a[1] not in self.put_once:
                             self.dropped.append(a[1])
